@@ -205,6 +205,7 @@ func cmdVerify(args []string) {
 	verbose := fs.Bool("v", false, "")
 	modelRe := fs.String("model", "", "dump scalar model values of failing obligations whose name contains this")
 	only := fs.String("only", "", "discharge only obligations whose name contains this")
+	virtual := fs.Bool("virtual", false, "number program points over the inlining tree")
 	fs.Parse(args)
 	specs := defaultSpecs(*repo, *verif)
 	if *spec != "" {
@@ -220,6 +221,7 @@ func cmdVerify(args []string) {
 		fmt.Fprintln(os.Stderr, err)
 		os.Exit(2)
 	}
+	w.virtual = *virtual
 	fmt.Printf("loaded in %.1fs\n", time.Since(t0).Seconds())
 	dir, _ := os.MkdirTemp("", "govc")
 	if !*keep {
